@@ -814,7 +814,8 @@ class Interp:
         if key not in self.cms:
             raise Unsupported(f"context manager {key} has no contract", node)
         enter, exit_ = self.cms[key]
-        args, kwargs = self._eval_args(call, env) if isinstance(call, ast.Call) else ((), {})
+        # `with f(x) as y`: the model gets f's arguments; `with obj as y` (an object that is its own context manager): the model gets the object
+        args, kwargs = self._eval_args(call, env) if isinstance(call, ast.Call) else ((self.eval(call, env),), {})
         token = enter(self.ctx, args, kwargs)
         value = token[0] if isinstance(token, tuple) and len(token) == 2 and token[1] == "$token" else token
         if item.optional_vars is not None:
